@@ -108,7 +108,9 @@ def obj_desc(draw, cls=None, depth=0):
         if cls == 'SurfaceReaction':
             d.update({'id': draw(st.sampled_from([None, 'r_0001', 'r_0042'])), 'is_adsorption': draw(st.booleans()),
                       'beta': draw(st.sampled_from([None, 1.0, 0.0])), 'direction': draw(st.sampled_from([None, 'cleavage'])),
-                      'sticking_coeff': draw(st.one_of(st.none(), st.floats(0.1, 1.0)))})
+                      'sticking_coeff': draw(st.one_of(st.none(), st.floats(0.1, 1.0))),
+                      'use_motz_wise': draw(st.booleans()), 'A': draw(st.one_of(st.none(), st.floats(1e3, 1e13))),
+                      'Ea': draw(st.one_of(st.none(), st.floats(0, 50)))})
     elif cls in ('Reactions', 'PhaseDiagram'):
         n = draw(st.integers(1, 3))
         d['rxns'] = [draw(obj_desc(cls='Reaction')) for _ in range(n)]
@@ -227,7 +229,8 @@ def build(d):
         if cls == 'ChemkinReaction':
             return ChemkinReaction(beta=d['beta'], is_adsorption=d['is_adsorption'], sticking_coeff=d['sticking_coeff'], **kw)
         return SurfaceReaction(id=d['id'], is_adsorption=d['is_adsorption'], beta=d['beta'], direction=d['direction'],
-                               sticking_coeff=d['sticking_coeff'], **kw)
+                               sticking_coeff=d['sticking_coeff'], use_motz_wise=d.get('use_motz_wise', False),
+                               A=d.get('A'), Ea=d.get('Ea'), **kw)
     if cls == 'Reactions':
         from pmutt.reaction import Reactions
         return Reactions(reactions=[build(x) for x in d['rxns']])
@@ -283,7 +286,7 @@ def snapshot(obj, depth=0):
              'vib_model', 'rot_model', 'elec_model', 'nucl_model', 'T_low', 'T_mid', 'T_high', 'a_low', 'a_high', 'nasas', 'units',
              'reactants', 'products', 'transition_state', 'reactants_stoich', 'products_stoich', 'transition_state_stoich',
              'reactions', 'norm_factors', 'offset', 'T_ref', 'HoRT_ref', 'id', 'beta', 'is_adsorption', 'sticking_coeff',
-             'direction', 'slope', 'intercept', 'descriptor', 'D0']
+             'direction', 'slope', 'intercept', 'descriptor', 'D0', 'use_motz_wise', 'A', 'Ea', 'gas_phase']
     for a in list(dict.fromkeys(params + extra)):
         if hasattr(obj, a):
             try:
